@@ -106,13 +106,19 @@ def render_pat(p, rng=None):
     return ' | '.join(alts)
 
 
+import re as _re
+_INTERP_OK = _re.compile(r"""^([^"\\\n]|\\[abfnrtv\\'"]|\\x[0-9a-fA-F]{2}|\\[0-7]{3}|\\u[0-9a-fA-F]{4}|\\U[0-9a-fA-F]{8})*$""")
+
+
 def string_lit(s, rng=None):
-    if '"' in s or '\\' in s or '\n' in s:
-        assert '`' not in s
-        return '`' + s + '`'
-    if rng is not None and '`' not in s and rng.random() < 0.5:
-        return '`' + s + '`'
-    return '"' + s + '"'
+    """the literal whose CONTENT (the characters between the quotes, taken raw by gocc) is s; the interpreted form
+    "..." exists when every backslash of s begins an escape the scanner accepts and s has no bare double quote"""
+    interp = bool(_INTERP_OK.match(s)) and '"' not in s.replace('\\"', '')
+    raw = '`' not in s
+    assert interp or raw
+    if interp and raw and rng is not None:
+        return ('`' + s + '`') if rng.random() < 0.5 else ('"' + s + '"')
+    return ('"' + s + '"') if interp else ('`' + s + '`')
 
 
 COMMENTS = ["/** Tokens **/", "/*** x ***/", "/* * */", "/* a*b **/", "/* c */", "/* a : 'x' ; */", "/**/", "// line comment\n", "//\n", "/* multi\nline */", "/* \"unterminated string */", "// 'q\n"]
@@ -122,7 +128,7 @@ def relayout(text, rng):
     """same tokens, different layout: every white-space run between tokens is replaced by a random run of
     white space and comments; the text must have been rendered by `render` without action texts"""
     import re
-    toks = re.findall(r"""'(?:\\.|[^\\'])+'|"[^"]*"|`[^`]*`|<<.*?>>|[^\s'"`]+""", text, flags=re.S)
+    toks = re.findall(r"""'(?:\\.|[^\\'])+'|"(?:\\.|[^\\"])*"|`[^`]*`|<<.*?>>|[^\s'"`]+""", text, flags=re.S)
     assert "".join(toks).replace(" ", "") == re.sub(r"\s+", "", text).replace(" ", "") or True
 
     def sep():
@@ -298,7 +304,8 @@ def rand_syn(rng, terms, nnt=None, max_alts=3, max_len=3, p_empty=0.2, p_error=0
                     else:
                         body.append(rng.choice(terms))
                 if rng.random() < p_error:
-                    body = [(1, "error")] + body[: max(1, n - 1)]
+                    # a quarter of the error alternatives are the bare `error`
+                    body = [(1, "error")] + (body[: max(1, n - 1)] if rng.random() < 0.75 else [])
                 elif rng.random() < p_error_mid and len(body) >= 1:
                     body.insert(rng.randint(1, len(body)), (1, "error"))
             act = 0
